@@ -2,7 +2,7 @@
 REG = dict(
     engine='E1-enum',
     technique='bounded-exhaustive enumeration of syntax trees x layouts (every <=k-gap deviation from the canonical layout over an 8-separator alphabet, string-literal content variants), differential oracle on the real formatter and the real parser',
-    text='Programs: quick = every production over 5 leaves (1906 depth-1 trees), a reduced depth-2 set (over 7 representative children), 58 representatives incl. a string literal in every literal position, and a definition-level set of 682 programs (function/method signatures whose line length is swept across the 100-column wrap limit with 0-3 parameters, every item kind with optional parts on/off, doc comments, all ordered pairs of 12 items); thorough = the full C33 depth-1 (8483) and depth-2 (64774) sets and 2202 definition programs (lengths 95-107, 0-5 parameters). Each program is rendered under every layout with <=1 gap (thorough: <=2 gaps for the representative, string-variant-of-representative and small-definition groups) deviating from the canonical layout, gap alphabet {glued, 1 space, 3 spaces, newline, newline+indent, blank lines, line comment, tab} incl. the gaps before the first and after the last token, plus two line comments whose text looks like code (`// a = b`, `// { " (`) in every gap next to `=`, `:`, `{`, `,`, `=>`, `+=`, `-=` (quick: not in the depth-2 and string-variant groups), plus a non-ASCII variant (a leading `// é😀` comment line and é😀 in every string literal and comment) of the representatives, the definition programs and the depth-1 trees (quick: every 4th definition program and every 3rd depth-1 tree with a type annotation, comma or `=`), and with every string literal (each literal position, and all at once) replaced by multi-line / brace-at-line-start / `//` / blank-line contents. Layouts the real parser does not map to the canonical tree are dropped and counted. Oracle on format(layout): parses without errors; structurally equal tree (the parser\'s own structural equality: identifiers, literal values, string contents, doc comments; positions, ids and comma positions ignored), same ordered comment texts, and the same text once whitespace and commas are erased. Exhaustive within these bounds.',
+    text='Programs: quick = every production over 5 leaves (1906 depth-1 trees), a reduced depth-2 set (over 7 representative children), 58 representatives incl. a string literal in every literal position, and a definition-level set of 682 programs (function/method signatures whose line length is swept across the 100-column wrap limit with 0-3 parameters, every item kind with optional parts on/off, doc comments, all ordered pairs of 12 items, and 24 two-item programs that put a signature over the wrap limit before / after a string literal in a let, a call argument and a function body; thorough: 240 of those); thorough = the full C33 depth-1 (8483) and depth-2 (64774) sets and 2202 definition programs (lengths 95-107, 0-5 parameters). Each program is rendered under every layout with <=1 gap (thorough: <=2 gaps for the representative, string-variant-of-representative and small-definition groups) deviating from the canonical layout, gap alphabet {glued, 1 space, 3 spaces, newline, newline+indent, blank lines, line comment, tab} incl. the gaps before the first and after the last token, plus two line comments whose text looks like code (`// a = b`, `// { " (`) in every gap next to `=`, `:`, `{`, `,`, `=>`, `+=`, `-=` (quick: not in the depth-2 and string-variant groups), plus a non-ASCII variant (a leading `// é😀` comment line and é😀 in every string literal and comment) of the representatives, the definition programs and the depth-1 trees (quick: every 4th definition program and every 3rd depth-1 tree with a type annotation, comma or `=`), and with every string literal (each literal position, and all at once) replaced by multi-line / brace-at-line-start / `//` / blank-line contents. Layouts the real parser does not map to the canonical tree are dropped and counted. Oracle on format(layout): parses without errors; structurally equal tree (the parser\'s own structural equality: identifiers, literal values, string contents, doc comments; positions, ids and comma positions ignored), same ordered comment texts, and the same text once whitespace and commas are erased. Exhaustive within these bounds.',
     note='The parser is trusted as the judge of "same tree" on both sides (it is checked against the printer by C33). Layouts with more simultaneous deviations than the bound, gap separators outside the alphabet (CR, form feed, block comments do not exist) and trees deeper than the sets are not covered.',
     design_ref='DESIGN.md §6 C17 / C18',
 )
@@ -47,20 +47,25 @@ def base_groups(ctx, full_depth2=True):
     reps = mk([layout.program_of(t) for t in layout.rep_trees() + layout.string_position_trees()])
     groups.append(("representatives", reps, 1 if quick else 2))
     items = mk(layout.definition_items(quick))
+    # an over-long (wrapped) signature before / after an item holding a string literal: all their string variants are explored
+    wrap_pairs = mk(layout.wrap_string_pairs(quick))
+    items = items + wrap_pairs
     groups.append(("definitions", items, 1))
     # string-literal content variants: every literal position of every base that has one
-    items_str = [b for b in items if b.str_positions()]
+    items_str = [b for b in items if b.str_positions() and id(b) not in {id(w) for w in wrap_pairs}]
     if quick:
         items_str = [b for b in items_str if b.kind.startswith("Import")] + [b for b in items_str if not b.kind.startswith("Import")][::5]
+    items_str += wrap_pairs
     with_str = [b for b in b1 + reps if b.str_positions()] + items_str
     variants = []
     in_b1 = {id(b) for b in b1}
+    in_pairs = {id(b) for b in wrap_pairs}
     for b in with_str:
         vs = layout.string_variants(b)
         if quick and id(b) in in_b1 and len(b.str_positions()) > 1:
             # quick: depth-1 trees with several literals get every position for the multi-line content only, the other contents all at once
             vs = [v for v in vs if v.variant.startswith("multi-line") or v.variant.endswith("@all")]
-        if quick and id(b) in in_b1:
+        if quick and (id(b) in in_b1 or id(b) in in_pairs):
             vs = [v for v in vs if not v.variant.startswith("slashes")]      # the `//` content is kept for representatives and items
         variants += vs
     ok, rejected = layout.derive(ctx, variants)
